@@ -23,7 +23,7 @@ for pid in [f"C{i:02d}" for i in range(1, 21)]:
         "evidence_file": f"/verif/evidence/{pid}.json",
         "replay_cmd_template": f"{PY} -m ttsa explain {{path}}",
         "engine": "ttsa",
-        "level_claimed": {"category": "other", "text": d["text"], "design_ref": f"DESIGN.md section 5, {pid}"},
+        "level_claimed": {"category": "other", "text": d["text"], "design_ref": f"DESIGN.md section 5 ({pid}) as amended by sections 14.4 and 15.4"},
         "level_note": d["note"],
         "technique": d["technique"],
     })
@@ -41,7 +41,7 @@ manifest = {
         "name": "ttsa",
         "path": "/verif/ttsa",
         "serves_properties": [c["property_id"] for c in checks],
-        "kind_free_text": "repository-specific static analysis on the stdlib ast: class table + C3 MRO + CHA call resolution, exceptional CFG with finally cloning, path-sensitive typestate exploration, structured abstract interpreter over finite domains, local alias/mutation analysis; no testtools code is imported or executed",
+        "kind_free_text": "repository-specific static analysis on the stdlib ast: class table + C3 MRO + call resolution; a structured abstract interpreter (ttsa.absint / effects / objects / generators) that follows the repository's code as written over symbolic environments -- instances built by their real constructors, a heap with aliasing, closures, properties, lazily consumed generators, all paths incl. exceptional ones -- with per-property scenario tables and models of the environment (user code, foreign results, streams, reactor, Deferreds, threads); local alias / mutation analysis and class-table rules; no testtools code is imported or executed, no solver",
     }],
     "checks": checks,
     "notes": md.NOTES,
